@@ -89,4 +89,40 @@ theorem gcx_chain_from_first {isPrime : Nat → Bool} {p : Params} {expand : Boo
   simp only [List.length_take, List.take_take]
   congr 1
   omega
+
+/-- **generated = model, choice of the first data level in `HeContext::new`** (the statement `let first_parms_id = if .. { key } else { .. create_next_context_data .. }`):
+    the generated skeleton leaves the trace of created levels untouched exactly when the model takes first = key (key level invalid, a single modulus, the
+    special-prime flag, or the next parameter set invalid) and otherwise appends the prime count of the level the model creates -/
+theorem gcx_new_first_eq {isPrime : Nat → Bool} {p : Params} {sec : SecLevel} {key : ContextData} {o : Option ContextData}
+    (ho : (if !key.valid || p.q.length == 1 || p.special then (pure none : R (Option ContextData)) else createNext isPrime p sec) = .ok o)
+    {valid : List Nat} (hv : p.q.length < valid.length)
+    (hk : valid.getD p.q.length 0 ≠ 0 ↔ key.valid = true)
+    (hval : valid.getD (p.q.length - 1) 0 ≠ 0 ↔ ∃ c, validate isPrime (dropLastP p) sec = .ok c ∧ c.valid = true) (chain : List Nat) :
+    GenX.new_first p.q.length valid p.special chain = .ok (gcx_nextResult chain o).1 := by
+  have hget : valid.getD p.q.length 0 = valid[p.q.length] := by simp [List.getD, hv]
+  rw [hget] at hk
+  unfold GenX.new_first
+  simp only [gw_idx_eq valid _ hv, bind, Except.bind]
+  by_cases hc : (!key.valid || p.q.length == 1 || p.special) = true
+  · rw [if_pos hc] at ho
+    cases ho
+    have hcond : (¬ valid[p.q.length] ≠ 0 ∨ p.q.length = 1) ∨ p.special = true := by
+      simp only [Bool.or_eq_true, Bool.not_eq_true', beq_iff_eq] at hc
+      rcases hc with (h1 | h1) | h1
+      · left; left; intro hne; have := hk.mp hne; rw [h1] at this; cases this
+      · left; right; exact h1
+      · right; exact h1
+    rw [if_pos hcond]
+    rfl
+  · rw [if_neg hc] at ho
+    have hcond : ¬ ((¬ valid[p.q.length] ≠ 0 ∨ p.q.length = 1) ∨ p.special = true) := by
+      simp only [Bool.or_eq_true, Bool.not_eq_true', beq_iff_eq, not_or] at hc
+      obtain ⟨⟨h1, h2⟩, h3⟩ := hc
+      have hkv : key.valid = true := by cases hkv' : key.valid <;> simp_all
+      rintro ((h | h) | h)
+      · exact h (hk.mpr hkv)
+      · exact h2 h
+      · exact h3 h
+    rw [if_neg hcond, gcx_create_next_eq ho (by omega) hval chain]
+    rfl
 end HC
